@@ -80,7 +80,16 @@ func runDataPath(c *simkit.Ctx, faults bool) {
 	ka, kb := identityKey(c, 0), identityKey(c, 1)
 	meta := &lib.PeerMeta{NetworkId: 1, ChainId: 1}
 	ca, cb := newLink("A", "B")
+	// the attacker records the encrypted frames A sends during the handshake (signature, peer meta)
+	var hsFrames [][]byte
+	ca.transform = func(b []byte) []byte {
+		if len(b) == frameSize {
+			hsFrames = append(hsFrames, append([]byte(nil), b...))
+		}
+		return b
+	}
 	ra, rb := handshakePair(ca, cb, meta, meta, ka, kb)
+	ca.transform = nil
 	if ra.err != nil || rb.err != nil {
 		c.ReportFor("C17", "handshake", "honest-handshake-failed", fmt.Sprintf("honest endpoints could not complete the handshake: %v / %v", ra.err, rb.err))
 		return
@@ -114,6 +123,10 @@ func runDataPath(c *simkit.Ctx, faults bool) {
 		nf := 1 + t.Intn(2)
 		for i := 0; i < nf; i++ {
 			plan[t.Intn(12)] = 1 + t.Intn(6)
+		}
+		if len(hsFrames) > 0 && t.Chance(1, 4) {
+			// replay a recorded handshake frame in place of the data frame with the same position in the stream
+			plan = map[int]int{t.Intn(len(hsFrames)): 7}
 		}
 	}
 	bitPos := t.Intn(frameSize * 8)
@@ -159,6 +172,9 @@ func runDataPath(c *simkit.Ctx, faults bool) {
 		case 5: // truncate mid-frame
 			c.Fault("frame_truncate")
 			push(-1, false, b[:1+bitPos%(frameSize-1)])
+		case 7: // a frame recorded during the handshake takes the place of this data frame
+			c.Fault("frame_replaced_by_handshake_frame")
+			push(-1, false, hsFrames[idx%len(hsFrames)])
 		case 6: // replay an earlier frame in front of this one
 			if idx > 0 {
 				c.Fault("frame_replay_earlier")
@@ -201,14 +217,17 @@ func runDataPath(c *simkit.Ctx, faults bool) {
 	if held != nil { // a swap whose partner never came: the held frame is simply lost
 		held = nil
 	}
-	if emitted != len(frameLens) {
-		c.Harnessf("frame accounting: emitted %d, expected %d", emitted, len(frameLens))
+	// the sender is expected to emit ceil(n/1024) frames per Write; if it frames differently the per-frame
+	// accounting below does not apply and only the end-to-end oracles are evaluated
+	framingOdd := emitted != len(frameLens)
+	if framingOdd {
+		c.Probe("sender_framing_differs_from_one_frame_per_1024_bytes")
 	}
 	// how many bytes may legitimately be delivered: frames accepted while wire[i] carries original i intact
 	clean := 0
 	anomaly := false
 	for i, wf := range wire {
-		if wf.orig == i && wf.intact && !anomaly {
+		if !framingOdd && i < len(frameLens) && wf.orig == i && wf.intact && !anomaly {
 			clean += frameLens[i]
 		} else {
 			anomaly = true
@@ -243,6 +262,14 @@ func runDataPath(c *simkit.Ctx, faults bool) {
 	c.Fingerprint(len(frameLens), len(wire), anomaly, len(got) == clean)
 	if !bytes.HasPrefix(sent, got) {
 		c.ReportFor("C17", "data-path", "delivered-bytes-not-a-prefix-of-sent", fmt.Sprintf("delivered %d bytes that are not a prefix of the %d bytes written (faults %v)", len(got), len(sent), plan))
+	}
+	if framingOdd {
+		if len(plan) == 0 && len(got) != len(sent) {
+			c.ReportFor("C17", "data-path", "clean-stream-incomplete", fmt.Sprintf("no fault injected but %d of %d bytes delivered (err %v; the sender emitted %d frames for writes that need %d)", len(got), len(sent), readErr, emitted, len(frameLens)))
+		}
+		ca.Close()
+		cb.Close()
+		return
 	}
 	if len(got) > clean {
 		c.ReportFor("C17", "data-path", "data-delivered-from-faulted-frame", fmt.Sprintf("%d bytes delivered but only %d bytes were carried by intact in-order frames before the first wire anomaly (faults %v)", len(got), clean, plan))
